@@ -9,7 +9,7 @@ from hypothesis import strategies as st
 VARS_STR = ["a", "b", "c"]
 VARS_INT = ["n", "m"]
 FILTERS = ["upper", "lower", "title", "length", 'default:"dflt val"', "default:'x'", "add:n", 'add:"3"', 'join:", "', "first", "escape", "safe", 'cut:" "', "truncatechars:5", 'yesno:"y,n"', 'slice:":2"', "capfirst", "striptags", "linebreaksbr", "default_if_none:b", 'ljust:"6"', "floatformat:2", "escapejs", "wordcount", "addslashes"]
-QUOTED = ['"x y"', "'x y'", '"it\'s"', "'say \"hi\"'", '"a\\"b"', "'a\\'b'", '"<b>&</b>"', '"50% off"', '"} }"', "'{ {'", '"#"', '""', "''", '"é ü"']
+QUOTED = ['"a\\\\"', "'dir\\\\'", '"C:\\\\t\\\\"', '"x y"', "'x y'", '"it\'s"', "'say \"hi\"'", '"a\\"b"', "'a\\'b'", '"<b>&</b>"', '"50% off"', '"} }"', "'{ {'", '"#"', '""', "''", '"é ü"']
 PADS = [" ", " ", " ", "  ", "\n", " \n  ", "\t"]
 TEXTS = ["t1 ", "<p>", "</p>", "x & y", " ", "\n", "é", "{ not a tag }", "50%", "it's", 'say "q"', "<b>bold</b>", "  \n  "]
 
@@ -166,6 +166,8 @@ class SB:
                 words[1] = '"missing_%d.html"' % self.counter
             return self.tag(*words)
         if kind == "block":
+            if not self.block_names:
+                return self.pick(TEXTS)
             name = self.pick(self.block_names)
             self.block_names = [b for b in self.block_names if b != name]  # block names are unique per template
             if not name:
